@@ -98,6 +98,14 @@ def hist_execute(case):
             "classes": ["end_on_timestamp" if on_ts else "end_off_timestamp", "start_on_timestamp" if a in case["times"] else "start_off_timestamp"]}
 
 
+def class_matrix_profile():
+    w = {"tracker": 1.0, "priorities": 1.0, "prio_preempt": 1.0, "prio_reroute": 0.4, "cc_waiting": 1.0, "cc_after": 0.6, "schedule": 0.4, "sched_preempt": 0.6,
+         "reneging": 0.3, "batching": 0.3, "self_loops": 0.5, "capacity": 0.3, "discipline": 0.2, "routing_objects": 0.2}
+    return S.Profile(list(w), weights=w, required=("tracker", "priorities", "prio_preempt", "cc_waiting"), numeric="grid", max_nodes=2, max_classes=3,
+                     plans=("max_time",), horizon=(8.0, 20.0), budget=600, load="heavy", max_c=2, tracker_kinds=("NodeClassMatrix", "NodeClassMatrix", "NodePopulation"),
+                     excluded=common.EXCL["C17"])
+
+
 def reused_tracker_subcheck():
     """The same tracker *object* handed to a second Simulation: Simulation.__init__ calls tracker.initialise(), which must start it afresh
     whatever state the first run left behind (e.g. customers still blocked when it stopped)."""
@@ -167,6 +175,11 @@ def subchecks(tier):
                         lambda spec: [TrackerTruth(spec)], lambda a, spec, res: a.get("blocked_seen", 0) >= 1 and a.get("rec_interrupted_service", 0) >= 1,
                         classes=classes, n={"quick": 4800, "thorough": 30000},
                         rule="pre-emptive schedules x blocking region with every tracker (MatrixBlocking excluded there: F6h)"),
+        system_subcheck("class_matrix", class_matrix_profile(), lambda spec: [TrackerTruth(spec)],
+                        lambda a, spec, res: a.get("ev_class_change", 0) >= 1 and a.get("rec_interrupted_service", 0) >= 1, classes=classes,
+                        n={"quick": 3600, "thorough": 20000},
+                        rule="NodeClassMatrix under every way a customer's class or place changes: class change while waiting and after service, "
+                             "pre-emptive priorities (incl. reroute) and schedules, reneging; same truth monitor"),
         reused_tracker_subcheck(),
         SubCheck("state_probabilities", hist_execute, strategy=hist_case(), n={"quick": 24000, "thorough": 80000}, kind="unit", is_spec=False,
                  rule="histories of 1-7 states on a dyadic time grid x finite windows with endpoints on / between / beyond timestamps; non-trivial = >= 3 states"),
